@@ -295,6 +295,10 @@ def run(prop):
                     line = R.model_line("asm %s %s %s %d %s" % (arch, ap, a, R.lad.asm_fuel, "heap,wf" if prop == "C14" else ("heap" if spec["classes"] & {"inv", "oob", "cc", "align", "undef"} else "none")))
                     if line is not None and line.startswith("ERR unknown"):
                         continue
+                    if not (line or "").strip():
+                        # the machine model did not answer in time (long run): no verdict
+                        chk.notes["machine_no_verdict"] = chk.notes.get("machine_no_verdict", 0) + 1
+                        continue
                     results[arch] = line
                     cls = classify(line)
                     beh = ladder.norm_behaviour(line)
